@@ -1,6 +1,7 @@
 package main
 
 import (
+	"bytes"
 	"encoding/hex"
 	"fmt"
 	"sort"
@@ -260,6 +261,8 @@ func execCwrite(toks []string) string {
 	stallS, _ := kvGet(toks, "stall")
 	G, _ := strconv.Atoi(gS)
 	M, _ := strconv.Atoi(mS)
+	mixS, _ := kvGet(toks, "mix")
+	mix := mixS == "1"
 	mc := newMemConn()
 	if stallS == "1" {
 		// the transport stalls in the middle of a write: accepts half, lets other goroutines
@@ -318,7 +321,30 @@ func execCwrite(toks []string) string {
 					payload[k] = byte(g*16 + i)
 				}
 				m.NewAVP(3000001, 0, 0, datatype.Unknown(payload))
-				m.WriteTo(conn)
+				switch {
+				case mix && g%3 == 1:
+					// the bytes are handed to the connection directly (Conn is an io.Writer)
+					if b, err := m.Serialize(); err == nil {
+						conn.Write(b)
+					}
+				case mix && g%3 == 2:
+					// an answer: it carries the stream of the request it answers (0 on TCP),
+					// where a locally built message carries none
+					rq := diam.NewMessage(280, 0x80, 0, uint32(g+1), uint32(i+1), dict.Default)
+					if rb, err := rq.Serialize(); err == nil {
+						if rm, err := diam.ReadMessage(bytes.NewReader(rb), dict.Default); err == nil {
+							a := rm.Answer(2001)
+							a.AVP = nil
+							a.Header.MessageLength = 20
+							a.NewAVP(3000001, 0, 0, datatype.Unknown(payload))
+							a.WriteTo(conn)
+							break
+						}
+					}
+					m.WriteTo(conn)
+				default:
+					m.WriteTo(conn)
+				}
 			}
 		}(g)
 	}
@@ -384,7 +410,7 @@ func execCwrite(toks []string) string {
 
 func genCwrite(r *RNG, n int, op string, emit func(string)) {
 	for i := 0; i < n; i++ {
-		emit(fmt.Sprintf("conn cwrite g=%d m=%d big=%d stall=%d seq=%d hc=%d", 2+r.Intn(7), 1+r.Intn(6), r.Intn(2), []int{1, 1, 0}[r.Intn(3)], i, r.Intn(2)))
+		emit(fmt.Sprintf("conn cwrite g=%d m=%d big=%d stall=%d seq=%d hc=%d mix=%d", 2+r.Intn(7), 1+r.Intn(6), r.Intn(2), []int{1, 1, 0}[r.Intn(3)], i, r.Intn(2), r.Intn(2)))
 	}
 }
 
